@@ -153,8 +153,8 @@ func min(a, b int) int {
 // Expressions inside the fragments of C02/C03 (predicates) and C07/C08/C09
 // (values), deeper than the exhaustive pools.
 
-func num(i int64) *xast.Expr { return &xast.Expr{T: "num", V: &xast.Num{C: "fin", N: i}} }
-func lit(s string) *xast.Expr { return &xast.Expr{T: "lit", S: s} }
+func num(i int64) *xast.Expr                    { return &xast.Expr{T: "num", V: &xast.Num{C: "fin", N: i}} }
+func lit(s string) *xast.Expr                   { return &xast.Expr{T: "lit", S: s} }
 func call(f string, a ...*xast.Expr) *xast.Expr { return &xast.Expr{T: "call", F: f, Args: a} }
 func bin(op string, l, r *xast.Expr) *xast.Expr { return &xast.Expr{T: "bin", Op: op, L: l, R: r} }
 
